@@ -6,9 +6,59 @@ _net = netprops.NetRunner()
 
 RUNNERS = {pid: _net for pid in netprops.CONFIG}
 RUNNERS["C10"] = cliprops.C10Runner()
+RUNNERS["C15"] = cliprops.C15Runner()
+import jobsprops
+RUNNERS["C19"] = jobsprops.C19Runner()
+import staticprops
+RUNNERS["C20"] = staticprops.C20Runner()
+import libprops
+RUNNERS["C16"] = libprops.C16Runner()
+RUNNERS["C17"] = libprops.C17Runner()
+RUNNERS["C18"] = libprops.C18Runner()
 
 # (fully qualified theorem name, module that contains it)
+def _t(mod, *names):
+    ns = mod.split(".")[-1]
+    return [(n, "FlooVerif.Props." + mod) for n in names]
+
 THEOREMS = {
+    "C01": _t("C01", "FlooVerif.C01.holds_iff_spec", "FlooVerif.C01.matching_stable") +
+           _t("C01U", "FlooVerif.C01U.sam_decodes_owner", "FlooVerif.C01U.overlap_rejected", "FlooVerif.C01U.rule_origin") +
+           [("FlooVerif.checkNoOverlap_iff", "FlooVerif.Lemmas.RouteMapLemmas")],
+    "C02": _t("C02", "FlooVerif.C02.arrives_of_potential", "FlooVerif.C02.trace_nodup", "FlooVerif.C02.walk_fuel_mono"),
+    "C03": _t("C03", "FlooVerif.C03.pack_unpack", "FlooVerif.C03.pack_lt", "FlooVerif.C03.port_fits"),
+    "C04": _t("C04", "FlooVerif.C04.lockstep", "FlooVerif.C04.step_closer", "FlooVerif.C04.no_y_to_x_turn",
+              "FlooVerif.C04.column_decision", "FlooVerif.C04.allowed_y_continuation", "FlooVerif.C04.dor_reaches"),
+    "C05": _t("C05", "FlooVerif.C05U.fillFree_paired", "FlooVerif.C05U.paired_same_neighbour"),
+    "C06": _t("C06", "FlooVerif.C06U.zip_replicate_eq", "FlooVerif.C06U.getD_flatMap_replicate"),
+    "C07": _t("C07", "FlooVerif.C07U.id_eq_uid", "FlooVerif.C07U.idOf_eq", "FlooVerif.C07U.uids_dense", "FlooVerif.C07U.id_fits"),
+    "C08": _t("C08", "FlooVerif.C08U.portElem_depth", "FlooVerif.C08U.kept_length", "FlooVerif.C08U.portElem_single"),
+    "C10": _t("C10", "FlooVerif.C10.no_output_on_error", "FlooVerif.C10.rejected_of_gen_error", "FlooVerif.C10.validate_ok",
+              "FlooVerif.C10.reject_invalid_range", "FlooVerif.C10.reject_empty_range", "FlooVerif.C10.reject_contradictory_range",
+              "FlooVerif.C10.reject_sbr_without_range", "FlooVerif.C10.reject_duplicate_endpoint_names",
+              "FlooVerif.C10.reject_duplicate_router_names", "FlooVerif.C10.reject_unidirectional",
+              "FlooVerif.C10.reject_addr_width_mismatch") +
+           _t("C01U", "FlooVerif.C01U.overlap_rejected"),
+    "C15": _t("C15", "FlooVerif.C15.out_independent_of_history", "FlooVerif.C15.mode_views", "FlooVerif.C15.full_files",
+              "FlooVerif.C15.getOpt_perm"),
+    "C09": _t("C09", "FlooVerif.C09.acyclic_of_rankValid", "FlooVerif.C09.acyclic_of_certOk", "FlooVerif.C09.no_rank_of_cycle") +
+           [("FlooVerif.acyclic_of_rank", "FlooVerif.Lemmas.Paths")],
+    "C11": _t("C11", "FlooVerif.C11.hw_offers_bindings", "FlooVerif.C11.hw_offers_macros",
+              "FlooVerif.C11.pkg_names_and_directions", "FlooVerif.C11.hwOffers_spec"),
+    "C12": _t("C12", "FlooVerif.C12.balanced_sound", "FlooVerif.C12.unbalanced_close", "FlooVerif.C12.lit_fits_iff"),
+    "C13": _t("C13", "FlooVerif.C13U.sam_count", "FlooVerif.C13U.cfg_num_sam_rules", "FlooVerif.C13U.router_counts"),
+    "C14": _t("C14", "FlooVerif.C14.lower_bound_of_potValid", "FlooVerif.C14.route_is_shortest",
+              "FlooVerif.C14.not_shortest_of_shorter") + [("FlooVerif.potential_lower_bound", "FlooVerif.Lemmas.Paths")],
+    "C16": _t("C16", "FlooVerif.C16.trim_decode_eq", "FlooVerif.C16.trim_covers_iff", "FlooVerif.C16.trim_overlap_free",
+              "FlooVerif.C16.trim_sizes", "FlooVerif.C16.trim_no_touching"),
+    "C17": _t("C17", "FlooVerif.C17.mkRange_wf", "FlooVerif.C17.mkRange_based", "FlooVerif.C17.setIdx_spec",
+              "FlooVerif.C17.setIdx_unbased", "FlooVerif.C17.rejects_contradictory", "FlooVerif.C17.rejects_empty",
+              "FlooVerif.C17.rejects_negative", "FlooVerif.C17.rejects_underspecified"),
+    "C18": _t("C18", "FlooVerif.C18.range_product", "FlooVerif.C18.range_error", "FlooVerif.C18.range_empty",
+              "FlooVerif.C18.pyRange_eq_seqIncl", "FlooVerif.C18.idx_spec", "FlooVerif.C18.lvl_spec"),
+    "C19": _t("C19", "FlooVerif.C19.jobs_in_range", "FlooVerif.C19.base_addresses", "FlooVerif.C19.finite_ok",
+              "FlooVerif.C19.access_len_le"),
+    "C20": _t("C20", "FlooVerif.C20.manifests_ok", "FlooVerif.C20.closed_covers_reachable", "FlooVerif.C20.holds_spec"),
 }
 
 TRUSTED_BASE = [
@@ -57,4 +107,38 @@ LEVEL = {
     "C14": _lv("Hop count of every emitted route compared with a distance potential checked in Lean (potential => lower bound on every path, proved for any graph).",
                "Lean 4 theorem (potential lower bound) + certified decider on real outputs"),
 }
+_LIB_NOTE = ("Trusted: Lean kernel; the correspondence run (pydantic/floogen objects driven in-process, compared "
+             "with the compiled Lean model on the quantifier's domain).")
+LEVEL.update({
+    "C10": _lv("Per-class rejection theorems over the Lean model of the validators and 'nothing is written on error' for the "
+               "model of the command; the model's accept/reject decision is compared with real floogen on every injected defect, "
+               "a sample goes through the real command line (exit status, directory listing).",
+               "Lean 4 theorems on the validator/CLI model + fault injection correspondence",
+               "Trusted: Lean kernel; fault injector; in-process runner tied to the CLI by sampled subprocess runs and by the "
+               "regenerated fact that render_sources renders both texts before opening a file. Classes caught deep in the "
+               "pipeline (selector, count, port conflict, unconnected, missing direction) are decided by correspondence only."),
+    "C15": _lv("The model of the command is a pure function of description and mode (history independence, mode projections, "
+               "key-order independence proved); hash seeds, working directories and byte identity live in the Python runtime and "
+               "are covered by running the real command line under those variations (partial by nature, see DESIGN.md).",
+               "Lean 4 theorems on the CLI model + runtime correspondence (subprocess matrix)",
+               "Trusted: Lean kernel; the subprocess matrix; copyright year masked."),
+    "C16": _lv("All five clauses proved for every table of any size about the Lean model of RouteMap.trim; the model is compared "
+               "with RouteMap.trim() exhaustively on the quantifier's small domain and on random wide tables.",
+               "Lean 4 proof (induction over the merge loop, permutation/sortedness lemmas) + exhaustive correspondence", _LIB_NOTE),
+    "C17": _lv("Proved for every specification over unbounded integers about the Lean model of AddrRange; model compared with "
+               "pydantic's AddrRange on every field subset x grid and on random 64-bit values.",
+               "Lean 4 proof (case analysis + linear arithmetic) + exhaustive correspondence", _LIB_NOTE),
+    "C18": _lv("Proved for every graph, range list and dimension count about the Lean model of the selectors; compared with "
+               "floogen's Graph selectors exhaustively on arrays/trees of the quantifier.",
+               "Lean 4 proof (induction over the range list) + exhaustive correspondence", _LIB_NOTE),
+    "C19": _lv("Proved for all burst lengths/counts, tiles, patterns and random draws over the Lean model of gen_mesh_traffic, with "
+               "constants, base-address expressions and example ranges regenerated from the sources each run; every job the real "
+               "script writes is checked against the Sam floogen emits.",
+               "Lean 4 proof over regenerated facts (translator) + job-file correspondence",
+               "Trusted: Lean kernel; translator harness/translate.py (ast); float arithmetic of gen_jobs.py exact below 2^53."),
+    "C20": _lv("Instance theorem over facts regenerated from Bender.yml, floo_noc.core, git ls-files, hw/ and the examples; generic "
+               "theorem: a closed set containing the roots contains every needed module.",
+               "Lean 4 kernel-decided instance over regenerated facts + generic closure theorem",
+               "Trusted: Lean kernel; translator (module headers, instantiation scan, manifest parsing)."),
+})
 NOT_APPLICABLE = {}
